@@ -321,6 +321,54 @@ def run(seed):
             ok = False
         expect(f"TraceRpcRate {name}", ok, False)
 
+    # ---- TraceAddrDial
+    import nodeaddrs
+    rep_a, traces_a = nodeaddrs.record(d, seed + 9, 1, 50)
+    trace = traces_a[0]
+    evs = _load(trace)
+    expect("TraceAddrDial clean", nodeaddrs.validate(trace)[0] is None, True)
+
+    def a_dial(m):
+        dl = [e for e in m if e["e"] == "dial"]
+        if not dl:
+            return False
+        e = dl[len(dl) // 2]
+        held = {x["a"] for b in m if b["e"] == "batch" for x in b["entries"] if x["k"] == e["m"]}
+        free = [a for a in range(1, 7) if a not in held]
+        e["a"] = free[0] if free else 6
+        return True
+
+    def a_book(m):
+        ak = [e for e in m if e["e"] == "ack" and e["ok"] and e["book"]["v1"]["a"] != 0]
+        if not ak:
+            return False
+        ak[len(ak) // 2]["book"]["v1"]["ver"] += 1
+        return True
+
+    def a_fwd(m):
+        fw = [e for e in m if e["e"] == "fwd"]
+        if not fw:
+            return False
+        fw[len(fw) // 2]["genuine"] = False
+        return True
+
+    def a_nodial(m):
+        # remove every dial after the first accepted batch: the connection loops never caught up
+        first = next((i for i, e in enumerate(m) if e["e"] == "dial"), None)
+        if first is None:
+            return False
+        m[:] = [e for i, e in enumerate(m) if e["e"] != "dial"]
+        return True
+
+    for name, m in _generic(evs, [("dial to an address never stored", a_dial), ("book entry differs after an accepted batch", a_book), ("forged announcement forwarded", a_fwd), ("connection loops never dial", a_nodial)]):
+        p = os.path.join(d, "addr_mut.ndjson")
+        _save(p, m)
+        try:
+            ok = nodeaddrs.validate(p)[0] is None
+        except common.ToolError:
+            ok = False
+        expect(f"TraceAddrDial {name}", ok, False)
+
     with open(os.path.join(common.OUT, "selftest.json"), "w") as f:
         json.dump([{"case": a, "tlc": b, "verdict": c} for a, b, c in results], f, indent=1)
     log(f"[selftest] {len(results)} cases, {bad} unexpected")
